@@ -20,7 +20,7 @@ PROPS = {
                 streams=[('w1', 'S1', 40, 60), ('w2', 'S1', 20, 60), ('w1', 'S7', 20, 60)],
                 configs=['dbg', 'rel'], need=['destroy', 'probe', 'create']),
     'C02': dict(title='Every access path returns the entity\'s own, latest component values',
-                coq=['props/C02.vo'], tags=[2],
+                coq=['props/C02.vo'], tags=[2, 6],
                 streams=[('w1', 'S2', 40, 70), ('w2', 'S2', 30, 70)],
                 configs=['dbg', 'rel'], need=['write', 'readall', 'create']),
     'C03': dict(title='Arbitrary, forged or foreign handles are memory-safe and never match by accident',
@@ -42,6 +42,10 @@ PROPS = {
                 coq=['props/C10.vo'], tags=[10, 4],
                 streams=[('w1', 'S9', 40, 60), ('w1', 'S7', 30, 60), ('w2', 'S9', 20, 60)],
                 configs=['dbg', 'rel-plain'], need=['create', 'reg']),
+    'C11': dict(title='Runtime-borrowed access panics instead of aliasing, and never refuses wrongly',
+                coq=['props/C11.vo'], tags=[11],
+                streams=[('w1', 'BM', 1, 0), ('w2', 'BM', 1, 0), ('w1', 'B1', 40, 50), ('w2', 'B1', 20, 50)],
+                configs=['dbg', 'rel'], need=['borrow']),
     'C12': dict(title='len and capacity are exact; creation respects capacity and the 2^24 limit',
                 coq=['props/C12.vo'], tags=[12],
                 streams=[('w1', 'S10', 50, 60), ('w2', 'S10', 20, 60)],
